@@ -52,6 +52,18 @@ inductive Atom
 inductive Catch | any | std | parse
   deriving DecidableEq, Repr, Inhabited
 
+
+/-- An action class named directly by a rule (`apply< A... >`, `if_apply< R, A... >`), not reached through the action
+    family: `A::apply( in, st... )` returning `void` or `bool`.  Generated like `ActionSpec` actions: a `bool` one returns
+    false when `(b + 2*e + id) % vetoMod = 0`, any one throws when `(b + e + id) % throwMod = 0`. -/
+structure RuleAct where
+  id : Nat
+  isBool : Bool := false
+  vetoMod : Nat := 0
+  throwMod : Nat := 0
+  throwStd : Bool := false
+  deriving DecidableEq, Repr, Inhabited
+
 /-- One constructor per distinct `match()` body (DESIGN §2.2).  Children are node ids. -/
 inductive Kind
   | atom (a : Atom)
@@ -80,6 +92,9 @@ inductive Kind
   | disable (c : Nat)
   | action (fam c : Nat)
   | state (dflt : Bool) (c : Nat)     -- `state< S, R >`; `dflt`: `S` is default-constructed (else from `in, st...`)
+  | ifApply (c : Nat) (acts : List RuleAct)   -- `if_apply< R, A... >`
+  | applyR (acts : List RuleAct)              -- `apply< A... >`
+  | control (k c : Nat)                       -- `control< Control_k, R >`
   deriving DecidableEq, Repr, Inhabited
 
 inductive ActKind | none | apply | apply0
@@ -99,6 +114,7 @@ inductive Wrap
   | limitBytes (n : Nat)
   | changeState (multi : Bool)                    -- `change_state< S >` / `change_states< S >` (`multi`)
   | changeActionAndState (fam : Nat) (multi : Bool)   -- `change_action_and_state< A, S >` / `..._states< A, S >`
+  | changeControl (k : Nat)                       -- `change_control< Control_k >`
   deriving DecidableEq, Repr, Inhabited
 
 /-- What the action class template does for one rule.  The harness generates the
@@ -140,9 +156,9 @@ def Res.isOk : Res → Bool
 
 /-- Observable events, in the order the harness control logs them. -/
 inductive Ev
-  | enter (i : Nat) (a : AMode) (m : RMode) (c : Cursor)
+  | enter (i : Nat) (a : AMode) (m : RMode) (c : Cursor) (k : Nat)   -- `k`: the control family the rule is invoked through
   | exit (i : Nat) (r : Nat) (c : Cursor)
-  | start (i : Nat) (c : Cursor)
+  | start (i : Nat) (c : Cursor) (k : Nat)                           -- `k`: the control family whose hooks run for this invocation
   | success (i : Nat) (c : Cursor)
   | failure (i : Nat) (c : Cursor)
   | unwind (i : Nat) (c : Cursor)
@@ -152,6 +168,7 @@ inductive Ev
   | sctor (d : Nat)                                -- a state object of nesting depth `d` is constructed
   | ssucc (d : Nat) (c : Cursor) (outer : Nat)     -- its `success( in, outer... )` is called at `c`
   | sdtor (d : Nat)                                -- it is destroyed
+  | ruleApply (k : Nat) (sd : Nat) (b e : Cursor)  -- `apply< A... >` / `if_apply< R, A... >` call `A_k::apply( [b, e), st... )` directly
   deriving DecidableEq, Repr, Inhabited
 
 /-- Mutable part of the parse input. -/
@@ -166,6 +183,7 @@ structure St where
 structure Env where
   fam : Nat := 0
   sd  : Nat := 0         -- nesting depth of the current state object (0: the states given to `parse`)
+  ctl : Nat := 0         -- control family (0: the one given to `parse`; 2: the harness's second, event-marking family)
   deriving DecidableEq, Repr, Inhabited
 
 /-- Everything immutable during one parsing run. -/
@@ -177,6 +195,7 @@ structure Ctx where
   init   : Cursor := ⟨0, 1, 1⟩     -- initial byte / line / column counters
   unwind : Bool := true            -- the control family defines `unwind()`
   fams   : Array (Array ActionSpec) := #[]   -- action families ≥ 1 (family 0 is `Node.act`)
+  msgs   : List Nat := []          -- the run's control is `must_if< Errors, … >::control`: the rules `Errors` has a message for (`raise_on_failure`)
   deriving Inhabited
 
 structure Ret where
